@@ -70,12 +70,26 @@ func verifEntry(kind int, recorded, other string) (FileHash, string, bool) {
 	}
 }
 
+func verifUpperHex(s string) string {
+	b := []byte(s)
+	for i, c := range b {
+		// branch-free (the digits of an uninterpreted digest are symbolic): hex letters have bit 6 set, digits do
+		// not; clearing bit 5 of a letter gives its upper-case form
+		b[i] = c &^ (((c >> 6) & 1) << 5)
+	}
+	return string(b)
+}
+
 // VerifC12Verify: the entry's verifier accepts `content` iff the digest of content under the entry's own
 // algorithm equals the recorded hash.  The recorded hash is the digest of `other` under the entry's algorithm
 // (kind < 4) so that equal and unequal cases are both reachable.
-func VerifC12Verify(kind int, content, other string) int {
+// upper: the recorded hash is written with upper-case hex digits (the same number).
+func VerifC12Verify(kind int, content, other string, upper bool) int {
 	alg0 := []string{"sha256", "sha512", "sha256", "sha512", "md5", "sha1", "sha256", "sha512"}[kind]
 	recorded := verifDigestHex(alg0, other)
+	if upper && kind < 4 {
+		recorded = verifUpperHex(recorded)
+	}
 	e, alg, ok := verifEntry(kind, recorded, other)
 	if !ok {
 		return 1
@@ -95,7 +109,7 @@ func VerifC12Verify(kind int, content, other string) int {
 		return 5
 	}
 	cerr := v.Close()
-	want := verifDigestHex(alg, content) == recorded
+	want := verifDigestHex(alg, content) == verifDigestHex(alg0, other)
 	if (cerr == nil) != want {
 		return 6
 	}
